@@ -297,6 +297,24 @@ func (fg *FnGen) step(fr *Frame, b *ssa.BasicBlock, ins ssa.Instruction, st *Sta
 	case *ssa.Defer:
 		fr.defers = append(fr.defers, x)
 		fg.set(st, fmt.Sprintf("defer:%p", x), SBool, True)
+		if fr.top && len(fg.monitors) > 0 {
+			// monitors can watch the registration of a deferred call: after call defer:concurrency.RecoverFromPanic args p : ...
+			d := fg.describeCall(x.Common())
+			d.full, d.short = "defer:"+d.short, "defer:"+d.short
+			var args []*Term
+			var argTypes []types.Type
+			if x.Common().IsInvoke() {
+				args = append(args, fg.val(fr, x.Common().Value))
+				argTypes = append(argTypes, x.Common().Value.Type())
+			}
+			for _, a := range x.Common().Args {
+				args = append(args, fg.val(fr, a))
+				argTypes = append(argTypes, a.Type())
+			}
+			fg.monitorBefore(fr, d, args, argTypes, st, reach, x.Pos())
+			d.sig = types.NewSignatureType(nil, nil, nil, nil, nil, false)
+			st = fg.monitorAfter(fr, d, args, nil, argTypes, st, reach)
+		}
 		return st
 	case *ssa.RunDefers:
 		for i := len(fr.defers) - 1; i >= 0; i-- {
